@@ -509,7 +509,7 @@ fn run_child_keep_output(bin: &str, args: &[String], timeout: Duration) -> (Stri
         match child.try_wait() {
             Ok(Some(st)) => break Some(st),
             Ok(None) => {
-                if start.elapsed() > timeout {
+                if isolate::is_hang(child.id(), start, timeout) {
                     let _ = child.kill();
                     let _ = child.wait();
                     break None;
@@ -522,7 +522,7 @@ fn run_child_keep_output(bin: &str, args: &[String], timeout: Duration) -> (Stri
     let text = reader.join().unwrap_or_default();
     use std::os::unix::process::ExitStatusExt;
     let death = match status {
-        None => Some("hang (killed after the time limit)".to_string()),
+        None => Some("hang (killed after the processor-time limit)".to_string()),
         Some(st) => {
             if let Some(sig) = st.signal() {
                 Some(format!("killed by signal {}", sig))
